@@ -105,9 +105,14 @@ package auparse
 //@ func (auparse.fieldMap).arch
 //@ requires fm != nil
 //@ modifies mapOf(fm), alloc
+//@ ensures[C12] old("arch" in fm) && strIsNum(old(fm["arch"].value), 16, true) && 0 <= strIval(old(fm["arch"].value), 16) && strIval(old(fm["arch"].value), 16) < 4294967296 && strIval(old(fm["arch"].value), 16) in AuditArchNames ==> isNil(result0) && "arch" in fm && fm["arch"].value == AuditArchNames[strIval(old(fm["arch"].value), 16)]
+//@ ensures[C12] !old("arch" in fm) ==> !isNil(result0)
 //@ func (auparse.fieldMap).setSyscallName
 //@ requires fm != nil
 //@ modifies mapOf(fm), alloc
+//@ spec int64OK(v int) bool := -9223372036854775808 <= v && v <= 9223372036854775807
+//@ ensures[C12] old("syscall" in fm) && old("arch" in fm) && strIsNum(old(fm["syscall"].value), 10, true) && int64OK(strIval(old(fm["syscall"].value), 10)) && old(fm["arch"].value) in AuditSyscalls && strIval(old(fm["syscall"].value), 10) in AuditSyscalls[old(fm["arch"].value)] ==> isNil(result0) && "syscall" in fm && fm["syscall"].value == AuditSyscalls[old(fm["arch"].value)][strIval(old(fm["syscall"].value), 10)]
+//@ ensures[C12] old("syscall" in fm) && old("arch" in fm) && strIsNum(old(fm["syscall"].value), 10, true) && int64OK(strIval(old(fm["syscall"].value), 10)) && !(old(fm["arch"].value) in AuditSyscalls && strIval(old(fm["syscall"].value), 10) in AuditSyscalls[old(fm["arch"].value)]) ==> isNil(result0) && "syscall" in fm && fm["syscall"].value == old(fm["syscall"].value)
 //@ func (auparse.fieldMap).setSignalName
 //@ requires fm != nil
 //@ modifies mapOf(fm), alloc
